@@ -2,6 +2,7 @@ import AlgoVerif.Proofs.C10Main
 import AlgoVerif.Proofs.C10Term
 import AlgoVerif.Proofs.C10TableEq
 import AlgoVerif.Proofs.C10Ext
+import AlgoVerif.Proofs.C10Edit
 /-!
 # C10 — FIRST, FOLLOW and nullable are exact; the LL(1) verdict matches the predictive table
 
@@ -171,6 +172,17 @@ theorem C10_first_memo_serves_analyses (g : Grammar T N) (hv : validB g = true) 
   obtain ⟨p, hp, pre, suf, hb⟩ := hq s hs
   exact infix_declared hv hp hb
 
+/-- **Every way of editing a grammar object in place keeps it a set grammar.**  `Edit` lists the ways the API lets a
+caller change a `*CFG` (`Productions.Add / Remove / RemoveAll`, `Add` / `Remove` on the set `Productions.Get` returns or
+`AllByHead` yields, the `Body` of a `*Production` inside the grammar assigned or written into, `Terminals` /
+`NonTerminals` `Add` / `Remove`, `Start` assigned, a field replaced by its clone).  The Go code keeps nothing between two
+calls, so a query on the edited object is the query on `applyEdits g es`, to which all theorems above apply; in
+particular the hypothesis `g.prods.Nodup` of the IsLL1 / table theorems holds after every history of edits of a grammar
+that `NewCFG` made. -/
+theorem C10_edits_keep_sets (g : Grammar T N) (h : IsSetGrammar g) (es : List (Edit T N)) :
+    IsSetGrammar (applyEdits g es) ∧ (applyEdits g es).prods.Nodup :=
+  ⟨applyEdits_isSet es g h, (applyEdits_isSet es g h).2.2⟩
+
 /-- **`IsEmpty` and `GetProduction` read the cells**: on the table `BuildParsingTable` builds for a duplicate-free
 production list, `IsEmpty(A,a)` says whether `cell g fi fo A a` is empty and `GetProduction(A,a)` returns its
 production exactly when it holds one. -/
@@ -243,6 +255,17 @@ example : Spec.AllProductive C10ex := by
   · exact ⟨[], hA⟩
   · exact ⟨[], hB⟩
 
+
+/-- edits of every kind on `C10ex`: it stays a set grammar; `setBody` on a production that is not there, or towards one
+that is there already, changes nothing; `getAdd` on a head without productions changes nothing -/
+example : IsSetGrammar C10ex ∧
+    (applyEdits C10ex [.getAdd ⟨2, [.term 1]⟩, .setBody ⟨1, [.nonterm 2]⟩ [.term 1, .nonterm 2], .removeAll 0,
+      .addNonterm 3, .removeTerm 0, .addTerm 5, .getRemove ⟨1, []⟩, .refresh]).prods
+      = [⟨1, [.term 0, .nonterm 1]⟩, ⟨1, [.term 1, .nonterm 2]⟩, ⟨2, [.nonterm 1]⟩, ⟨2, [.term 1]⟩] ∧
+    applyEdit C10ex (.setBody ⟨1, [.nonterm 2]⟩ []) = C10ex ∧
+    applyEdit C10ex (.setBody ⟨1, [.term 7]⟩ [.term 8]) = C10ex ∧
+    (applyEdit C10ex (.getAdd ⟨7, []⟩)).prods = C10ex.prods :=
+  ⟨⟨by decide, by decide, by decide⟩, by decide, rfl, rfl, rfl⟩
 
 /-! ### the second part on examples -/
 
